@@ -254,6 +254,148 @@ def run_history(hist, with_state):
     return viol, canon, steps, nobjs
 
 
+# ---- part 2: a changing workspace and damaged source stores ---------------------------
+# Small alphabets, no de-duplication: every history to the stated depth is executed.
+
+R_TREE = {"a": "x", "b": "y", "s/c": "x"}
+R_STORES = {"L": "local", "B": "base"}
+R_NEW = {"n1": b"new-one\n", "x": None}
+
+
+def alphabet2(kind):
+    if kind == "rearr":
+        return [("so", "L"), ("so", "B"), ("st", "L"), ("st", "B"), ("mv", "a", "b"), ("mv", "b", "a"),
+                ("wr", "a", "n1"), ("wr", "b", "x")]
+    return [("st", "L"), ("st", "B"), ("cor", "L", "dir"), ("cor", "L", "file"), ("cor", "B", "dir"),
+            ("cor", "B", "file"), ("xv", "L", "B"), ("xv", "B", "L"), ("wr", "a", "n1")]
+
+
+def run_history2(hist, with_state):
+    """Stage-only / stage+transfer against a workspace whose files are renamed and rewritten between
+    builds; verifying transfers out of stores some of whose (protected) objects were damaged."""
+    from dvc_data.hashfile.build import build
+    from dvc_data.hashfile.state import State
+    from dvc_data.hashfile.transfer import transfer
+
+    from ..world import stamp, walk_files
+
+    viol = []
+    info = {"staged_only": 0, "moves": 0, "damaged": 0, "verified_transfers": 0, "objects_audited": 0}
+    with World() as w:
+        ws = w.p("ws", "R")
+        write_tree(ws, {rel: CONTENTS[c] for rel, c in R_TREE.items()})
+        state = State(root_dir=w.root, tmp_dir=w.p("tmp")) if with_state else None
+        odbs = {}
+        for s, kind in R_STORES.items():
+            cfg = {"hash_name": "md5"}
+            if state is not None:
+                cfg["state"] = state
+            odbs[s] = make_odb(kind, w.p("store", s), **cfg)
+        damaged = {s: set() for s in R_STORES}
+        try:
+            for i, op in enumerate(hist):
+                cur = walk_files(ws)
+                listing = {rel: ref.md5(b) for rel, b in cur.items()}
+                try:
+                    if op[0] in ("so", "st"):
+                        odb = odbs[op[1]]
+                        staging, _m, obj = build(odb, ws, LFS, "md5")
+                        if obj.hash_info.value != ref.tree_oid(listing):
+                            viol.append(("staged-identifier-differs-from-workspace", f"step {i} {op} of {hist}"))
+                        if op[0] == "st":
+                            transfer(staging, odb, {obj.hash_info}, shallow=False, hardlink=False)
+                        else:
+                            info["staged_only"] += 1
+                    elif op[0] == "mv":
+                        src, dst = (os.path.join(ws, n) for n in op[1:])
+                        if os.path.exists(src):
+                            os.replace(src, dst)
+                            stamp(dst)
+                            info["moves"] += 1
+                    elif op[0] == "wr":
+                        data = R_NEW[op[2]] if R_NEW[op[2]] is not None else CONTENTS[op[2]]
+                        pth = os.path.join(ws, op[1])
+                        with open(pth, "wb") as fh:
+                            fh.write(data)
+                        stamp(pth)
+                    elif op[0] == "cor":
+                        odb = odbs[op[1]]
+                        oid = ref.tree_oid(listing) if op[2] == "dir" else listing.get("a") or sorted(listing.values())[0]
+                        pth = odb.oid_to_path(oid)
+                        if os.path.exists(pth):
+                            mode = os.stat(pth).st_mode & 0o777
+                            os.chmod(pth, 0o644)
+                            if op[2] == "dir":
+                                # still a well-formed listing, of other content
+                                other = dict(listing)
+                                k0 = sorted(other)[0]
+                                other[k0] = ref.md5(b"some other bytes")
+                                data = ref.tree_bytes(other)
+                            else:
+                                data = open(pth, "rb").read() + b"#"
+                            with open(pth, "wb") as fh:
+                                fh.write(data)
+                            os.chmod(pth, mode)
+                            damaged[op[1]].add(oid)
+                            info["damaged"] += 1
+                    elif op[0] == "xv":
+                        src, dst = odbs[op[1]], odbs[op[2]]
+                        ids = {hi(ref.tree_oid(listing))} | {hi(h) for h in listing.values()}
+                        transfer(src, dst, ids, hardlink=False, verify=True)
+                        info["verified_transfers"] += 1
+                except Exception as e:  # noqa: BLE001
+                    if not (op[0] == "xv" and isinstance(e, FileNotFoundError)):
+                        viol.append((f"operation-raises-{type(e).__name__}/{op[0]}", f"step {i} {op} of {hist}: {e!r}"))
+                for s, kind in R_STORES.items():
+                    v, nobj, _snap = audit_store(odbs[s].path, kind, "md5", s)
+                    info["objects_audited"] += nobj
+                    for sig, d in v:
+                        oid = d.split(" ")[0].rstrip(":")
+                        if oid in damaged[s] and "read-only" not in sig:
+                            continue  # damaged by the harness in this very store
+                        viol.append((sig, f"after step {i} {op} of {hist}: {d}"))
+        finally:
+            if state is not None:
+                state.close()
+    return viol, info
+
+
+def run_case2(case):
+    from . import C03 as _C03
+    import dvc_data.hashfile.build as _B
+
+    _B.ThreadPoolExecutor = _C03.PermExec
+    _C03._PERM.update(order=[1, 0], used=0, sizes=[])
+    res = {"n": 0, "trans": 0, "states": [], "outcomes": set(), "nontrivial": set(), "viol": [],
+           "vac": {"staged_only": 0, "workspace_moves": 0, "damaged_objects": 0, "verified_transfers": 0}}
+    sigs = set()
+    ops = alphabet2(case["kind"])
+    import itertools as _it
+
+    for tail in _it.product(ops, repeat=case["depth"] - len(case["prefix"])):
+        hist = [tuple(o) for o in case["prefix"]] + list(tail)
+        viol, info = run_history2(hist, case["state"])
+        res["n"] += 1
+        res["trans"] += len(hist)
+        d = digest_obj((case["kind"], hist, case["state"]))
+        res["states"].append(d)
+        if info["objects_audited"] >= 3:
+            res["nontrivial"].add(d)
+        res["vac"]["staged_only"] += info["staged_only"]
+        res["vac"]["workspace_moves"] += info["moves"]
+        res["vac"]["damaged_objects"] += info["damaged"]
+        res["vac"]["verified_transfers"] += info["verified_transfers"]
+        res["outcomes"].add(repr(sorted({v[0] for v in viol})))
+        for sig, detail in viol:
+            if sig not in sigs:
+                sigs.add(sig)
+                res["viol"].append((sig, detail, {"part": case["kind"], "hist": [list(o) for o in hist],
+                                                  "state": case["state"]}))
+    res["outcomes"] = sorted(res["outcomes"])
+    res["nontrivial"] = sorted(res["nontrivial"])
+    return res
+
+
 def run_case(case):
     hist = [tuple(o) for o in case["hist"]]
     viol, canon, steps, nobjs = run_history(hist, case["state"])
@@ -271,6 +413,13 @@ def run_case(case):
 
 
 def replay(case):
+    if case.get("part") in ("rearr", "damaged"):
+        from . import C03 as _C03
+        import dvc_data.hashfile.build as _B
+
+        _B.ThreadPoolExecutor = _C03.PermExec
+        _C03._PERM.update(order=[1, 0], used=0, sizes=[])
+        return run_history2([tuple(o) for o in case["hist"]], case["state"])[0]
     return run_history([tuple(o) for o in case["hist"]], case["state"])[0]
 
 
@@ -287,7 +436,10 @@ def run(ctx):
         "(duplicates, empty file, non-ASCII and spaced names, CRLF text, binary), with and without one shared "
         "State; all histories to depth 2, deeper ones only from new canonical states (set of (oid, mode) per "
         "store); after every step every object of every store is re-hashed with hashlib; non-trivial = "
-        ">= 2 operations and >= 3 objects"
+        ">= 2 operations and >= 3 objects; part 2 (no de-duplication): every history to depth 4 of {stage only, "
+        "stage+transfer} x 2 stores and {rename a->b, b->a, rewrite a, rewrite b} on one tree with duplicate "
+        "content, and every history to depth 3 of {stage+transfer, damage a protected directory / file object "
+        "in place, verifying transfer between the stores, rewrite a}"
     )
     ctx.bound = {"depth": depth, "operations": len(ops), "trees": TREES, "stores": STORES}
     ctx.assumptions = [
@@ -296,7 +448,19 @@ def run(ctx):
         "canonicalisation keeps (oid, mode) per store and drops inode numbers, timestamps, temp names and "
         "hash-state rows: no operation of the alphabet files content under a name derived from them",
     ]
-    ctx.require("objects_audited", "migrations", "uploads")
+    ctx.require("objects_audited", "migrations", "uploads", "staged_only", "workspace_moves", "damaged_objects",
+                "verified_transfers")
+    d2 = {"rearr": 5 if ctx.tier == "thorough" else 4, "damaged": 4 if ctx.tier == "thorough" else 3}
+    ctx.bound["part2"] = {"tree": R_TREE, "depth": d2, "rearr": [list(o) for o in alphabet2("rearr")],
+                          "damaged": [list(o) for o in alphabet2("damaged")]}
+    cs2 = []
+    for kind in ("rearr", "damaged"):
+        ops2 = alphabet2(kind)
+        for with_state in (False, True):
+            for o1 in ops2:
+                for o2 in ops2:
+                    cs2.append({"kind": kind, "depth": d2[kind], "prefix": [list(o1), list(o2)], "state": with_state})
+    ctx.run_cases("run_case2", cs2, chunksize=1, det=2)
     for with_state in (False, True):
         seen = set()
         frontier = [[]]
